@@ -485,9 +485,70 @@ def bracket_tol(pr, R):
 def run_classification(ctx, second_path=True):
     from cvxopt import solvers
 
+    def one_nl(c, rng, entry):
+        """cpl / cp / gp with default options on planted strictly feasible smooth problems"""
+        from vlib.gen import nlprob as nl
+        pr = nl.gen_cpl(rng) if entry == "cpl" else nl.gen_gp(rng) if entry == "gp" else nl.gen_cp(rng)
+        d = pr.dims
+        log = []
+        F = pr.make_F(log) if entry != "gp" else None
+        opts = {"show_progress": False}
+        a = {"G": sr.mk(pr.G), "h": sr.mk(pr.h), "dims": d.asdict(), "A": sr.mk(pr.A), "b": sr.mk(pr.b)}
+        c.desc.update({"entry": entry, "kind": "feasible", "family": pr.family, "n": pr.n, "dims": d.key(), "p": pr.A.shape[0],
+                       "mnl": len(pr.funcs)})
+        J = certs.Judge(c, ctx, entry)
+        try:
+            if entry == "cpl":
+                sol = solvers.cpl(sr.mk(pr.c), F, a["G"], a["h"], a["dims"], a["A"], a["b"], options=opts)
+            elif entry == "cp":
+                sol = solvers.cp(F, a["G"], a["h"], a["dims"], a["A"], a["b"], options=opts)
+            else:
+                sol = solvers.gp(pr.K, sr.mk(pr.Fgp), sr.mk(pr.ggp), a["G"], a["h"], a["A"], a["b"], options=opts)
+        except Exception as exc:
+            ctx.count("exception.feasible.%s" % type(exc).__name__)
+            J.req(False, "exception-on-well-posed-feasible", "well-posed planted instance raised %s: %s" % (type(exc).__name__, exc))
+            c.cls(entry, pr.family, "exception"); return
+        st = sol["status"]
+        c.desc["status"] = st
+        ctx.count("status.nl.feasible.%s" % st)
+        if not J.req(st in ("optimal", "unknown"), "feasible-classified-%s" % str(st).replace(" ", "-"), "status %r" % st):
+            return
+        x = vec_(sol["x"]); y = vec_(sol["y"]); znl, zl, snl, sl = (vec_(sol[k]) for k in ("znl", "zl", "snl", "sl"))
+        obj = (lambda v: float(pr.c @ v)) if entry == "cpl" else (lambda v: pr.funcs[0].val(v))
+        J.req(pr.indom(x), "x-outside-domain", "final x outside dom f")
+        if pr.indom(x):
+            Gs = np.column_stack([cone.symmetrize(pr.G[:, j], d) for j in range(pr.n)]) if pr.n else pr.G
+            hs = cone.symmetrize(pr.h, d); zls, sls = cone.symmetrize(zl, d), cone.symmetrize(sl, d)
+            f = pr.fvals(x); Df = pr.Df(x)
+            fnl, Dnl, g0 = (f, Df, pr.c) if entry == "cpl" else (f[1:], Df[1:], Df[0])
+            rx = g0 + Dnl.T @ znl + Gs.T @ zls + pr.A.T @ y
+            prim = math.sqrt(float(np.sum((pr.A @ x - pr.b) ** 2)) + float(np.sum((snl + fnl) ** 2)) + cone.sdot(sls + Gs @ x - hs, sls + Gs @ x - hs, d))
+            gapk = float(snl @ znl) + cone.sdot(sls, zls, d)
+            lvl = max(float(np.linalg.norm(rx)) / max(1.0, float(np.linalg.norm(g0))), prim / max(1.0, cone.snrm2(hs, d)))
+            if st == "unknown":
+                ctx.count("feasible-unknown")
+                if not (lvl <= 1e-5 and gapk <= 1e-5 * max(1.0, abs(obj(x)))):
+                    ctx.count("nl-not-converged." + entry)
+                ok = lvl <= 1e-5 and gapk <= 1e-5 * max(1.0, abs(obj(x)))
+                # mechanism split: the merit/line-search machinery lets the gap collapse long before
+                # feasibility is reached (centrality lost, mu ~ 0), after which the iteration crawls
+                collapsed = (not ok) and gapk <= 0.1 * lvl * max(1.0, abs(obj(x)))
+                J.req(ok, "unknown-gap-collapsed-before-feasibility" if collapsed else "feasible-unknown-not-at-1e-5",
+                      "status 'unknown' on a strictly feasible planted %s problem: residual level %.3g, gap %.3g" % (pr.family, lvl, gapk))
+            if st == "optimal" or lvl <= 1e-5:
+                slack = abs(gapk) + float(np.linalg.norm(rx)) * float(np.linalg.norm(pr.xs - x)) + \
+                    prim * (float(np.linalg.norm(y)) + float(np.linalg.norm(znl)) + cone.snrm2(zls, d)) + 1e-6 * (1 + abs(obj(x)))
+                J.req(obj(x) <= obj(pr.xs) + slack, "objective-above-planted-feasible-value",
+                      "objective %.10g exceeds the value %.10g at a known feasible point by more than %.3g" % (obj(x), obj(pr.xs), slack))
+        c.cls(entry, "feasible", pr.family, d.shape_class(), st)
+        ctx.count("judged.%s.feasible" % entry)
+
     def one(c):
         rng = c.rng
-        entry = rng.choices(["conelp", "lp", "socp", "sdp", "coneqp", "qp"], [0.3, 0.15, 0.12, 0.13, 0.2, 0.1])[0]
+        entry = rng.choices(["conelp", "lp", "socp", "sdp", "coneqp", "qp", "cpl", "cp", "gp"],
+                            [0.26, 0.12, 0.1, 0.1, 0.16, 0.08, 0.07, 0.07, 0.04])[0]
+        if entry in ("cpl", "cp", "gp"):
+            return one_nl(c, rng, entry)
         isqp = entry in ("coneqp", "qp")
         kind = rng.choices(["feasible", "pinf", "dinf"], [0.5, 0.25, 0.25])[0]
         if isqp and kind == "dinf":
